@@ -489,6 +489,7 @@ func c02GlobalFilterWiring(c *core.Ctx, a *c02Anchors) {
 	// holder fields: fields of GlobalFilter that receive X.Store(...)
 	holderOf := map[*types.Var]map[*types.Var]bool{} // holder field → spec keys referenced by the storing functions
 	holderAt := map[*types.Var]ast.Node{}
+	perSite := map[*types.Var][]map[*types.Var]bool{} // parameterised builders: the keys named at each call site
 	gst := gfT.Underlying().(*types.Struct)
 	isGFField := func(v *types.Var) bool {
 		for i := 0; i < gst.NumFields(); i++ {
@@ -507,9 +508,50 @@ func c02GlobalFilterWiring(c *core.Ctx, a *c02Anchors) {
 			var holders []*types.Var
 			var at ast.Node
 			keys := map[*types.Var]bool{}
+			g := flow.NewFunc(pkg, fd)
 			ast.Inspect(fd.Body, func(n ast.Node) bool {
 				switch x := n.(type) {
 				case *ast.CallExpr:
+					// a parameterised builder: the holder is handed over by address (`build(name, spec.X, prev,
+					// &gf.holder)`) and the callee stores into that parameter; the spec keys are those named in
+					// the same call
+					if callee, ok := g.Callee(x).(*types.Func); ok && callee.Pkg() == pkg.Types {
+						for _, arg := range x.Args {
+							u, ok := ast.Unparen(arg).(*ast.UnaryExpr)
+							if !ok || u.Op != token.AND {
+								continue
+							}
+							inner, ok := ast.Unparen(u.X).(*ast.SelectorExpr)
+							if !ok {
+								continue
+							}
+							sl := pkg.TypesInfo.Selections[inner]
+							if sl == nil {
+								continue
+							}
+							v, ok := sl.Obj().(*types.Var)
+							if !ok || !isGFField(v) || !c02StoresIntoParam(pkg, callee) {
+								continue
+							}
+							if holderOf[v] == nil {
+								holderOf[v] = map[*types.Var]bool{}
+							}
+							holderAt[v] = x
+							siteKeys := map[*types.Var]bool{}
+							defer func() { perSite[v] = append(perSite[v], siteKeys) }()
+							for _, a2 := range x.Args {
+								ast.Inspect(a2, func(m ast.Node) bool {
+									if se, ok := m.(*ast.SelectorExpr); ok {
+										if s2 := pkg.TypesInfo.Selections[se]; s2 != nil && (s2.Obj() == types.Object(fb) || s2.Obj() == types.Object(fa)) {
+											holderOf[v][s2.Obj().(*types.Var)] = true
+											siteKeys[s2.Obj().(*types.Var)] = true
+										}
+									}
+									return true
+								})
+							}
+						}
+					}
 					if sel, ok := ast.Unparen(x.Fun).(*ast.SelectorExpr); ok && sel.Sel.Name == "Store" {
 						if fo, ok := pkg.TypesInfo.Uses[sel.Sel].(*types.Func); ok && fo.Pkg() != nil && fo.Pkg().Path() == "sync/atomic" {
 							if inner, ok := ast.Unparen(sel.X).(*ast.SelectorExpr); ok {
@@ -562,6 +604,19 @@ func c02GlobalFilterWiring(c *core.Ctx, a *c02Anchors) {
 			hAfter = h
 			c.Discharge("R-C02-5", cons, pos(c, holderAt[h]), "stored only by functions that read Spec."+fa.Name())
 		default:
+			// call sites of a parameterised builder that each name one spec key but disagree
+			single, sawB, sawA := len(perSite[h]) > 1, false, false
+			for _, sk := range perSite[h] {
+				if len(sk) != 1 {
+					single = false
+				}
+				sawB = sawB || sk[fb]
+				sawA = sawA || sk[fa]
+			}
+			if single && sawB && sawA {
+				c.Violate("R-C02-5", cons, pos(c, holderAt[h]), "the holder field "+h.Name()+" is built from the beforePipeline spec at one call site and from the afterPipeline spec at another: one of the two configured flows runs in the other's place")
+				continue
+			}
 			var ks []string
 			for k := range keys {
 				ks = append(ks, k.Name())
@@ -597,11 +652,17 @@ func c02GlobalFilterWiring(c *core.Ctx, a *c02Anchors) {
 		c.Errorf("R-C02-5: anchor: handler with before/after pipelines not found")
 		return
 	}
-	sites := 0
+	sites, nilSites := 0, 0
 	for _, cl := range c02CallsOf(c, handler) {
 		for _, call := range cl.calls {
 			sites++
 			if len(call.Args) <= pidx[1] {
+				continue
+			}
+			// plain handling without a global filter: (ctx, nil, nil)
+			if cl.f.Info.Types[call.Args[pidx[0]]].IsNil() && cl.f.Info.Types[call.Args[pidx[1]]].IsNil() {
+				nilSites++
+				c.Discharge("R-C02-5", cl.cons+"|handler called without before/after pipelines", pos(c, call), "both pipeline arguments are nil: only the main flow runs")
 				continue
 			}
 			ob := c02Origins(cl.f, call.Args[pidx[0]])
@@ -612,7 +673,7 @@ func c02GlobalFilterWiring(c *core.Ctx, a *c02Anchors) {
 				"the pipelines handed to the handler are not (before, after) in that order: the flow configured as afterPipeline runs before the main flow or vice versa")
 		}
 	}
-	c.RequireCount("R-C02-5", "call sites of the before/after handler", sites, 1)
+	c.RequireCount("R-C02-5", "call sites of the before/after handler with pipelines", sites-nilSites, 1)
 }
 
 // c02CallerStaged decides R-C02-5 for a handler that runs the flows from one call site inside a
@@ -1156,13 +1217,43 @@ func c02CallerFields(c *core.Ctx, a *c02Anchors, cl *c02Caller, flowIdx int) int
 // c02GlobalFilterBuild: the before and the after pipeline are built independently of each other.
 // In the function that (re)builds both holders, every returning exit has stored the after pipeline
 // unless the after flow was found empty, and the before pipeline unless the before flow was found
-// empty (paths that panic reject the generation and are not exits).
+// empty (paths that panic reject the generation and are not exits). A builder parameterised by
+// (spec, holder) and called once per pipeline is followed: on entry of an inlined call the
+// parameters inherit what their arguments stand for (which spec key, which holder).
 func c02GlobalFilterBuild(c *core.Ctx, fb, fa, hBefore, hAfter *types.Var) {
 	fFlow := c02FieldByYAML(c, c02pl, "Spec", "flow")
-	if fFlow == nil {
+	pkg := c.Prog.Pkg(c02gf)
+	if fFlow == nil || pkg == nil {
 		return
 	}
-	isStore := func(g *flow.Func, d *c02Defs, call *ast.CallExpr) *types.Var {
+	tagOf := map[types.Object]string{fb: "specB", fa: "specA", hBefore: "holdB", hAfter: "holdA"}
+	allTags := []string{"specB", "specA", "holdB", "holdA"}
+	// what an expression stands for: fields named directly, plus what its identifiers were bound to
+	tagsOf := func(g *flow.Func, st *flow.State, e ast.Expr) map[string]bool {
+		out := map[string]bool{}
+		ast.Inspect(e, func(n ast.Node) bool {
+			switch x := n.(type) {
+			case *ast.SelectorExpr:
+				if sl := g.Info.Selections[x]; sl != nil {
+					if t := tagOf[sl.Obj()]; t != "" {
+						out[t] = true
+					}
+				}
+			case *ast.Ident:
+				if st != nil {
+					r := g.Render(x)
+					for _, t := range allTags {
+						if st.Is("ev:tag:"+r+":"+t, flow.True) {
+							out[t] = true
+						}
+					}
+				}
+			}
+			return true
+		})
+		return out
+	}
+	isAtomicStore := func(g *flow.Func, call *ast.CallExpr) ast.Expr {
 		sel, ok := ast.Unparen(call.Fun).(*ast.SelectorExpr)
 		if !ok || sel.Sel.Name != "Store" {
 			return nil
@@ -1171,25 +1262,30 @@ func c02GlobalFilterBuild(c *core.Ctx, fb, fa, hBefore, hAfter *types.Var) {
 		if !ok || fo.Pkg() == nil || fo.Pkg().Path() != "sync/atomic" {
 			return nil
 		}
-		for _, h := range []*types.Var{hBefore, hAfter} {
-			if _, ok := d.fieldSel(sel.X, h); ok {
-				return h
-			}
-		}
-		return nil
+		return sel.X
 	}
-	// the builders: minimal functions whose reach stores both holders
+	// the builders: minimal functions whose reach stores (or hands to a storing callee) both holders
 	storesBoth := func(g *flow.Func) bool {
-		seen := map[*types.Var]bool{}
+		seen := map[string]bool{}
 		for _, x := range reach(g, 3) {
-			xd := c02NewDefs(x)
 			for _, call := range calls(x.Body, true) {
-				if h := isStore(x, xd, call); h != nil {
-					seen[h] = true
+				if recv := isAtomicStore(x, call); recv != nil {
+					for t := range tagsOf(x, nil, recv) {
+						seen[t] = true
+					}
+				}
+				if callee, ok := x.Callee(call).(*types.Func); ok && callee.Pkg() == pkg.Types && c02StoresIntoParam(pkg, callee) {
+					for _, arg := range call.Args {
+						if u, ok := ast.Unparen(arg).(*ast.UnaryExpr); ok && u.Op == token.AND {
+							for t := range tagsOf(x, nil, u.X) {
+								seen[t] = true
+							}
+						}
+					}
 				}
 			}
 		}
-		return seen[hBefore] && seen[hAfter]
+		return seen["holdB"] && seen["holdA"]
 	}
 	cands := funcsByRole(c, c02gf, func(g *flow.Func, fd *ast.FuncDecl) bool { return storesBoth(g) })
 	var builders []*flow.Func
@@ -1210,34 +1306,9 @@ func c02GlobalFilterBuild(c *core.Ctx, fb, fa, hBefore, hAfter *types.Var) {
 	for _, f := range builders {
 		fd := f.Node.(*ast.FuncDecl)
 		cons := declName(f.Pkg, fd)
-		d := c02ReachDefs(f, 3)
-		// fields mentioned by an expression, aliases (helper parameters, locals) resolved
-		var fieldsIn func(e ast.Expr, depth int, out map[types.Object]bool)
-		fieldsIn = func(e ast.Expr, depth int, out map[types.Object]bool) {
-			if depth > 6 {
-				return
-			}
-			ast.Inspect(e, func(n ast.Node) bool {
-				switch x := n.(type) {
-				case *ast.SelectorExpr:
-					if sl := f.Info.Selections[x]; sl != nil {
-						out[sl.Obj()] = true
-					}
-				case *ast.Ident:
-					if al := d.alias(x); al != ast.Expr(x) {
-						fieldsIn(al, depth+1, out)
-					}
-				}
-				return true
-			})
-		}
-		// emptiness tests of the two flows: len(X.Flow) ==/!= 0, len(..) > 0, X.Flow == nil …
-		type emp struct {
-			cond  ast.Expr
-			which *types.Var // fb or fa
-		}
-		var emps []emp
-		for _, g := range d.funcs {
+		// comparisons that test a flow for emptiness: len(X.Flow) ==/!= 0, len(..) > 0, X.Flow == nil …
+		var emps []*ast.BinaryExpr
+		for _, g := range reach(f, 3) {
 			ast.Inspect(g.Body, func(n ast.Node) bool {
 				be, ok := n.(*ast.BinaryExpr)
 				if !ok {
@@ -1248,29 +1319,32 @@ func c02GlobalFilterBuild(c *core.Ctx, fb, fa, hBefore, hAfter *types.Var) {
 				default:
 					return true
 				}
-				fs := map[types.Object]bool{}
-				fieldsIn(be, 0, fs)
-				if !fs[fFlow] {
+				mentionsFlow := false
+				ast.Inspect(be, func(m ast.Node) bool {
+					if se, ok := m.(*ast.SelectorExpr); ok {
+						if sl := f.Info.Selections[se]; sl != nil && sl.Obj() == types.Object(fFlow) {
+							mentionsFlow = true
+						}
+					}
 					return true
-				}
-				switch {
-				case fs[fb] && !fs[fa]:
-					emps = append(emps, emp{be, fb})
-				case fs[fa] && !fs[fb]:
-					emps = append(emps, emp{be, fa})
+				})
+				if mentionsFlow {
+					emps = append(emps, be)
 				}
 				return true
 			})
 		}
-		// is the flow known empty after cond was decided? (len(x) == 0, !(len(x) != 0), !(len(x) > 0), len(x) < 1 …)
-		emptyKnown := func(st *flow.State, e emp) bool {
-			be := e.cond.(*ast.BinaryExpr)
+		// is the flow known empty after the comparison was decided?
+		emptyKnown := func(st *flow.State, be *ast.BinaryExpr) bool {
 			k, neg := f.Atom(be)
 			v := st.Get(k)
 			if v == flow.Unknown {
 				return false
 			}
 			holds := (v == flow.True) != neg // truth of the comparison as written
+			if f.Info.Types[be.X].IsNil() || f.Info.Types[be.Y].IsNil() {
+				return (be.Op == token.EQL) == holds
+			}
 			lenLeft := false
 			if call, ok := ast.Unparen(be.X).(*ast.CallExpr); ok {
 				if b, ok := f.Callee(call).(*types.Builtin); ok && b.Name() == "len" {
@@ -1282,9 +1356,6 @@ func c02GlobalFilterBuild(c *core.Ctx, fb, fa, hBefore, hAfter *types.Var) {
 				cst = be.X
 			}
 			tv := f.Info.Types[cst]
-			if f.Info.Types[be.X].IsNil() || f.Info.Types[be.Y].IsNil() {
-				return (be.Op == token.EQL) == holds
-			}
 			if tv.Value == nil {
 				return false
 			}
@@ -1301,19 +1372,57 @@ func c02GlobalFilterBuild(c *core.Ctx, fb, fa, hBefore, hAfter *types.Var) {
 			}
 			return false
 		}
-		evStored := func(h *types.Var) string { return "ev:stored:" + h.Name() }
-		evEmpty := func(k *types.Var) string { return "ev:empty:" + k.Name() }
+		ambiguous := false
 		res := analyze(c, f, flow.Config{
 			Inline: inlineSamePkg(f),
+			OnInline: func(st *flow.State, ev *flow.InlineEvent) {
+				if !ev.Enter {
+					return
+				}
+				// evaluate all arguments in the caller's bindings first, then bind
+				sets := make([]map[string]bool, len(ev.Params))
+				for i := range ev.Params {
+					if i < len(ev.Args) {
+						sets[i] = tagsOf(f, st, ev.Args[i])
+					}
+				}
+				for i, p := range ev.Params {
+					r := f.Render(p)
+					for _, t := range allTags {
+						if sets[i][t] {
+							st.Set("ev:tag:"+r+":"+t, flow.True)
+						} else {
+							st.Set("ev:tag:"+r+":"+t, flow.Unknown)
+						}
+					}
+				}
+			},
 			OnCall: func(st *flow.State, call *ast.CallExpr, callee types.Object, deferred bool) {
-				if h := isStore(f, d, call); h != nil {
-					st.Set(evStored(h), flow.True)
+				if recv := isAtomicStore(f, call); recv != nil {
+					ts := tagsOf(f, st, recv)
+					switch {
+					case ts["holdB"] && ts["holdA"]:
+						ambiguous = true
+					case ts["holdB"]:
+						st.Set("ev:stored:before", flow.True)
+					case ts["holdA"]:
+						st.Set("ev:stored:after", flow.True)
+					}
 				}
 			},
 			AfterAssume: func(st *flow.State, cond ast.Expr, outcome bool) {
-				for _, e := range emps {
-					if emptyKnown(st, e) {
-						st.Set(evEmpty(e.which), flow.True)
+				for _, be := range emps {
+					if !emptyKnown(st, be) {
+						continue
+					}
+					ts := tagsOf(f, st, be)
+					switch {
+					case ts["specB"] && ts["specA"]:
+						ambiguous = true
+					case ts["specB"]:
+						st.Set("ev:empty:before", flow.True)
+					case ts["specA"]:
+						st.Set("ev:empty:after", flow.True)
 					}
 				}
 			},
@@ -1321,11 +1430,11 @@ func c02GlobalFilterBuild(c *core.Ctx, fb, fa, hBefore, hAfter *types.Var) {
 		if res == nil {
 			continue
 		}
-		for _, pr := range []struct {
-			name   string
-			key, h *types.Var
-			other  string
-		}{{"before", fb, hBefore, "after"}, {"after", fa, hAfter, "before"}} {
+		if ambiguous {
+			c.Undecide("R-C02-5", cons+"|after pipeline built whenever its flow is not empty", pos(c, fd), "a store or an emptiness test refers to both pipelines at once; cannot tell them apart")
+			continue
+		}
+		for _, pr := range []struct{ name, other string }{{"before", "after"}, {"after", "before"}} {
 			var bad *flow.Exit
 			n := 0
 			for _, ex := range res.Exits {
@@ -1333,7 +1442,7 @@ func c02GlobalFilterBuild(c *core.Ctx, fb, fa, hBefore, hAfter *types.Var) {
 					continue
 				}
 				n++
-				if !ex.State.Is(evStored(pr.h), flow.True) && !ex.State.Is(evEmpty(pr.key), flow.True) && bad == nil {
+				if !ex.State.Is("ev:stored:"+pr.name, flow.True) && !ex.State.Is("ev:empty:"+pr.name, flow.True) && bad == nil {
 					bad = ex
 				}
 			}
@@ -1347,4 +1456,32 @@ func c02GlobalFilterBuild(c *core.Ctx, fb, fa, hBefore, hAfter *types.Var) {
 					" flow was not found empty (e.g. an early return taken for the "+pr.other+" pipeline also skips this one): a GlobalFilter configured with a "+pr.name+"Pipeline never runs its "+pr.name+" flow around the main flow", w...)
 		}
 	}
+}
+
+// c02StoresIntoParam reports whether fn (or a same-package function it reaches) calls
+// (*atomic.Value).Store on one of its own *atomic.Value parameters.
+func c02StoresIntoParam(pkg *packages.Package, fn *types.Func) bool {
+	fd := declOf(pkg, fn)
+	if fd == nil {
+		return false
+	}
+	found := false
+	for _, g := range reach(flow.NewFunc(pkg, fd), 3) {
+		for _, call := range calls(g.Body, true) {
+			sel, ok := ast.Unparen(call.Fun).(*ast.SelectorExpr)
+			if !ok || sel.Sel.Name != "Store" {
+				continue
+			}
+			fo, ok := g.Info.Uses[sel.Sel].(*types.Func)
+			if !ok || fo.Pkg() == nil || fo.Pkg().Path() != "sync/atomic" {
+				continue
+			}
+			if id, ok := ast.Unparen(sel.X).(*ast.Ident); ok {
+				if v, ok := g.Info.Uses[id].(*types.Var); ok && !v.IsField() && v.Parent() != pkg.Types.Scope() {
+					found = true
+				}
+			}
+		}
+	}
+	return found
 }
